@@ -35,3 +35,16 @@ func VerifCSSOptionsImmutable(n int) {
 }
 
 func verifOptM() *minify.M { return minify.New() }
+
+// VerifCSSSharedState (C13): one call with symbolic options, with or without the inline parameter, on a shared option
+// struct and a shared *minify.M, under the write-set monitor: no store to memory that existed before the call.
+func VerifCSSSharedState(n int) {
+	o := &Minifier{KeepCSS2: vBool("a"), Precision: vChoice("p", 3)}
+	m := verifOptM()
+	var params map[string]string
+	if vBool("inlineparam") {
+		params = map[string]string{"inline": "1"}
+	}
+	in := verifSharedInput(n, verifCSSDocs)
+	verifNoSharedWrite(in, func(w *vWriter, r *vReader) error { return o.Minify(m, w, r, params) })
+}
